@@ -89,13 +89,41 @@ def gen_move(rng, k):
     H = {100: ["tcp_lep 10", "tcp_move 10", "tcp_lep 10", r.choice(["tcp_close 10", "tcp_destroy 10", "tcp_close 10"]),
                "tcp_new 30 1", "tcp_open 30 1", "tcp_bind 30 0 %d %d" % (A1, port), "tcp_lep 1",
                "tcp_new 11 1", "accept 1 11 0 102", "tcp_new 21 2", "tcp_connect 21 0 %d %d 103" % (A1, port)],
-         101: ["tcp_move 20", "tcp_lep 20"],
-         102: ["tcp_lep 11"]}
+         101: ["tcp_move 20", "tcp_lep 20", "expires_after 7 %d" % r.choice([1000000000, 3000000000]), "async_wait 7 104"],
+         102: ["tcp_lep 11"],
+         # the moved client socket goes away: its endpoint (the first ephemeral port of the run) is free again -
+         # another socket can bind it, and a connect to it from the other node finds nobody listening
+         104: ["tcp_close 20", "tcp_new 31 2", "tcp_open 31 1", "tcp_bind 31 0 %d 2000" % (A1 + 1), "tcp_lep 31",
+               "tcp_new 32 1", "tcp_connect 32 0 %d 2000 105" % (A1 + 1)]}
     if r.random() < 0.5:
         H[100].insert(0, "tcp_move 10")
     L += ["M " + o for o in ops]
     for h in sorted(H):
         L += ["H %d %s" % (h, o) for o in H[h]]
+    L.append("M run")
+    return L
+
+
+def gen_port0(rng, k):
+    """port 0 when the candidate port (the next value of the ephemeral counter) is taken on that address
+    while lower ports of the same address are bound too: the port handed out must be free"""
+    r = rng
+    net = Net(r, nnodes=2)
+    L = list(net.lines)
+    ops = ["acc_new 1 1", "tcp_open 1 1", "tcp_bind 1 0 %d %d" % (A1, r.choice([1500, 1024, 1999])), "tcp_lep 1"]
+    taken = r.choice([[2000], [2000, 2001], [2000, 2002]])
+    sid = 2
+    for p in taken:
+        ops += ["tcp_new %d 1" % sid, "tcp_open %d 1" % sid, "tcp_bind %d 0 %d %d" % (sid, A1, p), "tcp_lep %d" % sid]
+        sid += 1
+    for _ in range(r.choice([1, 2, 3])):
+        if r.random() < 0.6:
+            ops += ["tcp_new %d 1" % sid, "tcp_open %d 1" % sid, "tcp_bind %d 0 %d 0" % (sid, r.choice([A1, 0])), "tcp_lep %d" % sid]
+        else:
+            # the implicit bind of async_connect
+            ops += ["tcp_new %d 1" % sid, "tcp_connect %d 0 %d 4444 %d" % (sid, A1 + 1, 100 + sid), "tcp_lep %d" % sid]
+        sid += 1
+    L += ["M " + o for o in ops]
     L.append("M run")
     return L
 
@@ -123,6 +151,7 @@ def generate(rng, tier):
     out = [("r%d" % k, gen(rng, k)) for k in range(n)]
     out += [("w%d" % k, gen_wrap(rng, k)) for k in range(2 if tier == "quick" else 12)]
     out += [("mv%d" % k, gen_move(rng, k)) for k in range(6 if tier == "quick" else 100)]
+    out += [("p0%d" % k, gen_port0(rng, k)) for k in range(8 if tier == "quick" else 100)]
     return out
 
 
